@@ -37,7 +37,8 @@ def main():
             print("[%s] properties raising: %s" % (cname, sorted(byprop)))
         for pid in checks:
             t0 = time.time()
-            c = subprocess.run([os.path.join(ROOT, "check"), pid, "quick"], capture_output=True, text=True, cwd=ROOT)
+            c = subprocess.run([os.path.join(ROOT, "check"), pid, "quick"], capture_output=True, text=True, cwd=ROOT,
+                               env=dict(os.environ, VERIF_EVIDENCE_DIR=os.path.join(ROOT, "out", "seed_eval", "evidence")))
             obl = [l for l in c.stdout.split("\n") if l.startswith("failed obligation") or l.startswith("VIOLATION") or l.startswith("UNDECIDED") or l.startswith("  - ")]
             out["checks"][pid] = {"rc": c.returncode, "lines": obl[:12]}
             print("check %s quick -> rc=%d (%.0fs) %s" % (pid, c.returncode, time.time() - t0, "; ".join(obl[:4])[:400]))
